@@ -57,6 +57,12 @@ def _single_defs(fn: ast.AST) -> Dict[str, ast.AST]:
             for t in n.targets:
                 if isinstance(t, ast.Name):
                     bound.setdefault(t.id, []).append(n.value)
+                elif (isinstance(t, (ast.Tuple, ast.List)) and isinstance(n.value, (ast.Tuple, ast.List)) and len(t.elts) == len(n.value.elts)
+                      and all(isinstance(x, ast.Name) for x in t.elts) and not any(isinstance(x, ast.Starred) for x in n.value.elts)
+                      and not ({x.id for x in t.elts} & _names(n.value))):
+                    # `a, b = e1, e2` with no target read on the right: two independent bindings
+                    for x, v in zip(t.elts, n.value.elts):
+                        bound.setdefault(x.id, []).append(v)
                 else:
                     for x in ast.walk(t):
                         if isinstance(x, ast.Name) and isinstance(x.ctx, ast.Store):
